@@ -4,6 +4,7 @@ CONSTANTS
   Bufs2 = {}
   Modes = {1,2,3,7,40000}
   Long = TRUE
+  BSizes = {}
   Track = TRUE
 INIT Init
 NEXT Next
